@@ -16,6 +16,8 @@ import (
 	"github.com/google/certificate-transparency-go/trillian/ctfe"
 	"github.com/google/trillian"
 	"github.com/google/trillian/types"
+	"google.golang.org/grpc/codes"
+	"google.golang.org/grpc/status"
 	"google.golang.org/protobuf/proto"
 	"pgregory.net/rapid"
 
@@ -36,6 +38,7 @@ type ArithCase struct {
 	TreeSize    uint64 // what the backend claims
 	ServeLeaves int    // how many leaves the backend returns at most (short read), >= 1
 	Metrics     bool   // process option --getentries_metrics
+	QuotaFaults int    // the backend answers that many range requests with ResourceExhausted before it serves one
 	QStyle      int    // spelling of the query string: 0 canonical, 1 every value octet percent-encoded with unknown parameters around, 2 reverse order between empty pairs
 }
 
@@ -132,6 +135,9 @@ func genArith(t *rapid.T) ArithCase {
 	if rapid.IntRange(0, 3).Draw(t, "respell") == 0 {
 		c.QStyle = rapid.IntRange(1, 2).Draw(t, "qstyle")
 	}
+	if rapid.IntRange(0, 5).Draw(t, "quota") == 0 {
+		c.QuotaFaults = rapid.IntRange(1, 4).Draw(t, "nquota")
+	}
 	return c
 }
 
@@ -196,6 +202,9 @@ func checkArith(t *testing.T, c ArithCase) (v harness.Verdict) {
 			return nil, nil, false
 		}
 		req := call.Req.(*trillian.GetLeavesByRangeRequest)
+		if call.N < c.QuotaFaults {
+			return nil, status.Error(codes.ResourceExhausted, "quota"), true
+		}
 		root := types.LogRootV1{TreeSize: c.TreeSize, RootHash: make([]byte, 32), TimestampNanos: 5}
 		rb, _ := root.MarshalBinary()
 		rsp := &trillian.GetLeavesByRangeResponse{SignedLogRoot: &trillian.SignedLogRoot{LogRoot: rb}}
@@ -277,11 +286,6 @@ func checkArith(t *testing.T, c ArithCase) (v harness.Verdict) {
 		v.Class("noncanonical-accepted")
 	}
 	// valid range
-	if len(calls) != 1 {
-		v.Failf("backend-call-count", "start=%s end=%s max=%d align=%v: %d GetLeavesByRange calls, status %d", c.Start, c.End, c.Max, c.Align, len(calls), rsp.Status)
-		return v
-	}
-	req := calls[0].Req.(*trillian.GetLeavesByRangeRequest)
 	span := new(big.Int).Sub(ev, sv)
 	span.Add(span, big.NewInt(1))
 	want := big.NewInt(c.Max)
@@ -289,6 +293,34 @@ func checkArith(t *testing.T, c ArithCase) (v harness.Verdict) {
 	if !truncated {
 		want = span
 	}
+	if c.QuotaFaults > 0 {
+		// the backend is short of quota for a while: however the front end reacts, every request it makes must be a
+		// non-empty range beginning at start and within the limits, and it must not answer 200 unless it was served
+		v.NonTrivial = true
+		v.Class("backend-quota-exhausted")
+		if len(calls) == 0 {
+			v.Failf("backend-call-count", "start=%s end=%s: no backend call, status %d", c.Start, c.End, rsp.Status)
+			return v
+		}
+		for k, call := range calls {
+			rq := call.Req.(*trillian.GetLeavesByRangeRequest)
+			if rq.StartIndex != sv.Int64() || rq.Count < 1 || big.NewInt(rq.Count).Cmp(want) > 0 {
+				v.Failf("range-under-quota-fault", "start=%s end=%s max=%d: backend request %d of %d (after %d quota refusals) asks start=%d count=%d, want start=%s count 1..%s", sv, ev, c.Max, k+1, len(calls), c.QuotaFaults, rq.StartIndex, rq.Count, sv, want)
+			}
+		}
+		if len(calls) <= c.QuotaFaults {
+			if rsp.Status == 200 {
+				v.Failf("served-without-backend", "every backend request was refused for quota, yet the answer is 200")
+			}
+			return v
+		}
+		calls = calls[len(calls)-1:]
+	}
+	if len(calls) != 1 {
+		v.Failf("backend-call-count", "start=%s end=%s max=%d align=%v: %d GetLeavesByRange calls, status %d", c.Start, c.End, c.Max, c.Align, len(calls), rsp.Status)
+		return v
+	}
+	req := calls[0].Req.(*trillian.GetLeavesByRangeRequest)
 	if req.StartIndex != sv.Int64() {
 		v.Failf("range-start", "asked start=%s, backend request starts at %d", sv, req.StartIndex)
 	}
